@@ -39,6 +39,8 @@ var c02Snippets = []string{
 	"{{ ma | join }}", "{% for kv in ma %}{{ kv[0] }} {% endfor %}", "{{ ms | join }}", "{% for kv in ms %}{{ kv[0] }}{% endfor %}",
 	"{{ st.A }}{{ st.M.a }}", "{{ st.P }}", "{{ pst.A }}", "{{ m | default: 'none' | size }}", "{% if m contains 'a' %}has-a{% endif %}",
 	"{% case m %}{% when m %}same{% endcase %}", "{{ 'now' | size }}",
+	"{% for q in a %}{% cycle 'x', 'y', 'z' %}{{ 10 | divided_by: q }} {% endfor %}", "{% for kv in m %}{% cycle 'p', 'q' %}{{ 6 | divided_by: kv[1] }}{% endfor %}",
+	"{{ '2024-02-29 13:14:15' | date: '%Y-%m-%d %H' }}",
 }
 
 type c02Struct struct {
@@ -196,10 +198,18 @@ var c02Deterministic = hx.Define("c02.entry-points", func(c *c02Case, s *hx.Sub)
 		results = append(results, res{label, resultString(out, err)})
 		return nil
 	}
+	// results handed out as []byte are kept and looked at again after all other renders:
+	// later activity must not change bytes the caller already holds
+	type held struct {
+		b    []byte
+		copy string
+	}
+	var kept []held
 	str := func(b []byte, err liquid.SourceError) (string, error) {
 		if err != nil {
 			return "", err
 		}
+		kept = append(kept, held{b, string(b)})
 		return string(b), nil
 	}
 	e1 := engine()
@@ -245,6 +255,18 @@ var c02Deterministic = hx.Define("c02.entry-points", func(c *c02Case, s *hx.Sub)
 				}
 				return buf.String(), nil
 			})
+		},
+		func() *hx.Violation {
+			// what reaches the writer before a failure is output too: two FRenders must write the same bytes
+			var b1, b2 bytes.Buffer
+			var e1, e2 liquid.SourceError
+			if pi := hx.Guard(func() { e1 = tpl.FRender(&b1, shared); e2 = tpl.FRender(&b2, binds()) }); pi != nil {
+				return hx.V("panic@"+pi.Site, "FRender of %q: %v", src, pi)
+			}
+			if b1.String() != b2.String() || (e1 == nil) != (e2 == nil) {
+				return hx.V("c02:differs", "%q\n   one FRender wrote %q (%v)\n   the next FRender wrote %q (%v)", src, trunc(b1.String(), 300), e1, trunc(b2.String(), 300), e2)
+			}
+			return nil
 		})
 	for i := 0; i < 3; i++ {
 		steps = append(steps, func() *hx.Violation {
@@ -292,6 +314,23 @@ var c02Deterministic = hx.Define("c02.entry-points", func(c *c02Case, s *hx.Sub)
 			return hx.V("harness-error", "child process: %v", err)
 		}
 		results = append(results, res{"fresh process", out})
+	}
+	// something else is rendered in between (other content, other length)
+	if pi := hx.Guard(func() {
+		other, err := e1.ParseString("{% for i in (1..40) %}#other-content-{{ i }}#{% endfor %}")
+		if err == nil {
+			for i := 0; i < 3; i++ {
+				_, _ = other.Render(nil)
+				_, _ = engine().ParseAndRender([]byte("ZZZZZZZZZZZZZZZZZZZZZZZZZZZZZZZZ{{ 1 }}"), nil)
+			}
+		}
+	}); pi != nil {
+		return hx.V("panic@"+pi.Site, "rendering an unrelated template: %v", pi)
+	}
+	for i, h := range kept {
+		if string(h.b) != h.copy {
+			return hx.V("c02:returned-bytes-changed", "%q: the []byte returned by render %d read %q when it was returned and reads %q after later renders", src, i, trunc(h.copy, 300), trunc(string(h.b), 300))
+		}
 	}
 	for _, r := range results[1:] {
 		if r.value != results[0].value {
